@@ -79,6 +79,11 @@ func genC20(tier string, r *rng, emit func(string)) {
 	sample(2, func(t string, r *rng, e func(string)) { genEW("C07", t, r, e) })
 	sample(1, gens["C09"])
 	sample(12, gens["C01"])
+	gens["C01"](tier, r, func(c string) { // all of the inverse index arithmetic (divmod)
+		if strings.HasPrefix(c, "itol ") {
+			emit(c)
+		}
+	})
 	sample(3, gens["C05"])
 	// (2) float programs for the specialised engines: Add in every mode and layout, FMA, FMAScalar,
 	//     Inner, MatMul, MatVecMul
